@@ -6,12 +6,12 @@
 package main
 
 import (
-	"os"
 	"context"
 	"crypto/sha256"
 	"encoding/binary"
 	"fmt"
 	"math/rand"
+	"os"
 	"sort"
 	"strings"
 	"sync"
@@ -21,11 +21,11 @@ import (
 	apiv1 "github.com/attestantio/go-eth2-client/api/v1"
 	"github.com/attestantio/go-eth2-client/spec/altair"
 	"github.com/attestantio/go-eth2-client/spec/phase0"
-	"github.com/prysmaticlabs/go-bitfield"
 	nullmetrics "github.com/attestantio/vouch/services/metrics/null"
 	signerstd "github.com/attestantio/vouch/services/signer/standard"
 	aggstd "github.com/attestantio/vouch/services/synccommitteeaggregator/standard"
 	msgstd "github.com/attestantio/vouch/services/synccommitteemessenger/standard"
+	"github.com/prysmaticlabs/go-bitfield"
 	"github.com/rs/zerolog"
 	e2wtypes "github.com/wealdtech/go-eth2-wallet-types/v2"
 	"verif/checks/ctlsim"
@@ -96,6 +96,8 @@ type scenario struct {
 	NoAccount  []uint64            `json:"members_without_account,omitempty"`
 	NoSig      []uint64            `json:"members_without_signature,omitempty"`
 	RunSlots   uint64              `json:"slots_run"`
+	TargetAggs uint64              `json:"target_aggregators_per_sync_subcommittee"`
+	SubRefused bool                `json:"sync_subnet_subscriptions_refused,omitempty"`
 }
 
 func firstEpochOf(p, altairEpoch uint64) uint64 {
@@ -124,7 +126,7 @@ func history(c *harness.Ctx, id string, r *rand.Rand) {
 		sc.Altair = uint64(period + 1 + r.Intn(period-2)) // fork inside period 1, not on its boundary
 		sc.Start = (sc.Altair-1)*spe + uint64(r.Intn(2*spe))
 	default:
-		sc.Start = uint64(r.Intn(2*period*spe))
+		sc.Start = uint64(r.Intn(2 * period * spe))
 	}
 	vals := []uint64{31, 32, 33, 34, 35}
 	accts := map[uint64]harness.Acct{}
@@ -138,7 +140,15 @@ func history(c *harness.Ctx, id string, r *rand.Rand) {
 		return
 	}
 	w := &world{env: env, roots: map[uint64]phase0.Root{}, msgs: map[uint64][]*altair.SyncCommitteeMessage{}, contribs: map[uint64][]*altair.SignedContributionAndProof{}}
-	specExtra := map[string]any{"SYNC_COMMITTEE_SIZE": uint64(size), "SYNC_COMMITTEE_SUBNET_COUNT": uint64(subnets), "TARGET_AGGREGATORS_PER_SYNC_SUBCOMMITTEE": uint64(targetAggs)}
+	// the usual test constants (modulo 4), or those of the minimal preset (target 16: every member aggregates)
+	r1 := rand.New(rand.NewSource(r.Int63()))
+	sc.TargetAggs = []uint64{targetAggs, targetAggs, 16}[r1.Intn(3)]
+	sc.SubRefused = r1.Intn(5) == 0
+	modulo := uint64(size) / subnets / sc.TargetAggs
+	if modulo < 1 {
+		modulo = 1
+	}
+	specExtra := map[string]any{"SYNC_COMMITTEE_SIZE": uint64(size), "SYNC_COMMITTEE_SUBNET_COUNT": uint64(subnets), "TARGET_AGGREGATORS_PER_SYNC_SUBCOMMITTEE": sc.TargetAggs}
 	specP := harness.NewSpec(spe, specExtra)
 	sg, err := signerstd.New(ctx, signerstd.WithLogLevel(zerolog.Disabled), signerstd.WithMonitor(nullmetrics.New()), signerstd.WithClientMonitor(nullmetrics.New()),
 		signerstd.WithSpecProvider(specP), signerstd.WithDomainProvider(harness.RecDomains{}))
@@ -195,6 +205,7 @@ func history(c *harness.Ctx, id string, r *rand.Rand) {
 			sc.NoSig = append(sc.NoSig, v)
 		}
 	}
+	env.SyncSubscribeFail.Store(sc.SubRefused)
 	if err := env.Start(); err != nil {
 		c.Inconclusive("controller.New: " + err.Error())
 		return
@@ -305,7 +316,7 @@ func history(c *harness.Ctx, id string, r *rand.Rand) {
 				var sig phase0.BLSSignature
 				copy(sig[:], harness.Keys.Key(1100+int(v-31)).Sign(root[:]).Marshal())
 				h := sha256.Sum256(sig[:])
-				if binary.LittleEndian.Uint64(h[:8])%(size/subnets/targetAggs) == 0 {
+				if binary.LittleEndian.Uint64(h[:8])%modulo == 0 {
 					wantC[sel{v, sub}] = sig
 				}
 			}
@@ -394,14 +405,14 @@ func run(c *harness.Ctx) {
 
 func main() {
 	harness.Main(&harness.Spec{
-		Property: "C15",
-		Level:    "exploration",
-		Rule:     "controller histories in virtual time (4 slots per epoch, 8 epochs per sync period, committee size 32, 4 subnets) with the real sync committee messenger, aggregator and signer: start at epoch 0 (with and without waiting for genesis), inside period 0, in the last epochs before a period boundary, inside period 1, around an unaligned fork epoch; 1-4 of 5 validators in each period's committee with 1-2 positions; random members without account or returning no signature; run for more than a whole period, then every slot's submitted messages and contributions are judged. distinct = (window class, members, skipped members, selected aggregators)",
-		Batches:  func(string) int { return 2 },
-		Parallel: 2,
-		Run:      run,
-		MinDistinct: 20,
+		Property:     "C15",
+		Level:        "exploration",
+		Rule:         "controller histories in virtual time (4 slots per epoch, 8 epochs per sync period, committee size 32, 4 subnets) with the real sync committee messenger, aggregator and signer: start at epoch 0 (with and without waiting for genesis), inside period 0, in the last epochs before a period boundary, inside period 1, around an unaligned fork epoch; 1-4 of 5 validators in each period's committee with 1-2 positions; random members without account or returning no signature; run for more than a whole period, then every slot's submitted messages and contributions are judged. distinct = (window class, members, skipped members, selected aggregators)",
+		Batches:      func(string) int { return 2 },
+		Parallel:     2,
+		Run:          run,
+		MinDistinct:  20,
 		ChildTimeout: func(string) time.Duration { return 40 * time.Minute },
-		Assumptions: []string{"the start slot itself may or may not carry a message (only later slots are judged)", "'no signature' is a remote signer returning no signature for that account (a hard signing error fails the signer's whole batch by its all-or-none design, judged under C06)", "expected selection proofs are recomputed with the validators' keys (deterministic BLS)"},
+		Assumptions:  []string{"the start slot itself may or may not carry a message (only later slots are judged)", "'no signature' is a remote signer returning no signature for that account (a hard signing error fails the signer's whole batch by its all-or-none design, judged under C06)", "expected selection proofs are recomputed with the validators' keys (deterministic BLS)"},
 	})
 }
